@@ -294,7 +294,15 @@ impl Node {
                         }
                     }
                     Err(e) => {
-                        if e.to_string().contains("Decode error") {
+                        // Anything but an I/O failure, a read timeout or an over-long length
+                        // was detected after the whole frame had been consumed: framing is
+                        // intact, so the frame is skipped and the connection kept.
+                        if !matches!(
+                            e,
+                            edp_client::Error::Io(_)
+                                | edp_client::Error::Timeout(_)
+                                | edp_client::Error::MessageTooLarge { .. }
+                        ) {
                             tracing::warn!(
                                 "Failed to decode message from {} (likely unsupported message type): {}",
                                 remote_node,
